@@ -191,6 +191,30 @@ def calmStep (st : CalmSt) (t : Tr) : CalmSt :=
 
 def calmFlags (tr : List Tr) : List String := (tr.foldl calmStep {}).bad
 
+/-- name of the instruction at the head (for the coverage report: which instructions / actions of the model a run exercised) -/
+def headName (c : Cfg) : String :=
+  match c.code with
+  | [] => "(end)"
+  | ins :: _ =>
+    let full := (repr ins).pretty 100000
+    let tok := (full.splitOn " ").headD ""
+    let tok := (tok.splitOn "\n").headD ""
+    let base := (tok.replace "Simpleline.Instr." "").replace "(" ""
+    match ins with
+    | .act a =>
+      let af := (repr a).pretty 100000
+      "act." ++ ((((af.splitOn " ").headD "").splitOn "\n").headD "" |>.replace "Simpleline.Act." "" |>.replace "(" "")
+    | _ => base
+
+def runCollect (P : Prog) : Nat → Cfg → List String → Cfg × Outcome × List String
+  | 0, c, seen => (c, .fuel, seen)
+  | n + 1, c, seen =>
+    let nm := headName c
+    let seen := if seen.contains nm then seen else nm :: seen
+    match step P c with
+    | .ok c' => runCollect P n c' seen
+    | .error (o, c') => (c', o, seen)
+
 def opMachine (j : Json) : Except String Json := do
   let cc ← charClass (← field j "cc")
   let screens ← (← arr (← field j "screens")).mapM screenOf
@@ -224,7 +248,7 @@ def opMachine (j : Json) : Except String Json := do
     handlers.map (fun h => (h.1, HRef.user h.2.1, h.2.2.1)) ++ (if excH then [(Cls.exception, HRef.exc, none)] else [])
   let c0 := initCfg init regs (← optNat (fieldD j "quit_cb" Json.null)) stdin
   let fuel ← nat (fieldD j "fuel" (Json.num 20000))
-  let (c, o) := runFuel P fuel c0
+  let (c, o, seen) := runCollect P fuel c0 []
   pure (Json.mkObj [
     ("outcome", outcomeJson o),
     ("log", Json.arr (c.log.reverse.map evJson).toArray),
@@ -232,6 +256,7 @@ def opMachine (j : Json) : Except String Json := do
     ("stack", Json.arr (c.A.stack.reverse.map (entryJson P)).toArray),
     ("depth", Json.num c.L.levels.length),
     ("flags", Json.arr ((historyFlags c.tr.reverse).map Json.str).toArray),
+    ("instrs", Json.arr (seen.map Json.str).toArray),
     ("noncalm", Json.arr ((calmFlags c.tr.reverse).map Json.str).toArray)])
 
 end Driver
